@@ -275,9 +275,9 @@ class Sweep:
         return Sweep(
             items,
             dims=dims,
-            exclude=_combined_exclude(self.exclude, other.exclude),
-            constants=_combine_dicts(self.constants, other.constants),  # type: ignore[arg-type]
-            derivers=_combine_dicts(self.derivers, other.derivers),  # type: ignore[arg-type]
+            exclude=_combined_exclude(self.exclude, *(other.exclude for other in others)),
+            constants=_combine_dicts(self.constants, *(other.constants for other in others)),  # type: ignore[arg-type]
+            derivers=_combine_dicts(self.derivers, *(other.derivers for other in others)),  # type: ignore[arg-type]
         )
 
     def add_derivers(self, **derivers: Callable[[dict[str, Any]], Any]) -> Sweep:
